@@ -146,3 +146,16 @@ package semantic
 //@   loop 1.1 invariant len(tmp) <= $i && wfPairs(tmp) && wfPairs(tds) && wfPairs(r.typedefs) && cnt == len(tds)
 //@   loop 1.1 invariant forall k int :: 0 <= k && k < len(r.typedefs) ==> r.typedefs[k].Type.Category != parser.Category_Typedef || (exists j int :: 0 <= j && j < len(tmp) && tmp[j].Type == r.typedefs[k].Type) || (exists j int :: $i <= j && j < len(tds) && tds[j].Type == r.typedefs[k].Type)
 //@   loop 1.2 invariant wfPairs(tmp)
+
+// ---- enum lookup through typedefs (C05) ----
+
+// Shape and consistency of every parsed-and-registered file (established by the parser and RegisterNames/ResolveType).
+//@ pure func wfTh1(x *parser.Thrift) bool { return (forall i int :: 0 <= i && i < len(x.Enums) ==> x.Enums[i] != nil) && (forall i int :: 0 <= i && i < len(x.Typedefs) ==> x.Typedefs[i] != nil && x.Typedefs[i].Type != nil && (x.Typedefs[i].Type.Reference != nil ==> 0 <= x.Typedefs[i].Type.Reference.Index && x.Typedefs[i].Type.Reference.Index < len(x.Includes))) && (forall i int :: 0 <= i && i < len(x.Includes) ==> x.Includes[i] != nil && x.Includes[i].Reference != nil) && len(x.Includes) <= 2147483647 && (forall n string :: inDom(x.Name2Category, n) && x.Name2Category[n] == parser.Category_Enum ==> exists k int :: 0 <= k && k < len(x.Enums) && x.Enums[k].Name == n) && (forall n string :: inDom(x.Name2Category, n) && x.Name2Category[n] == parser.Category_Typedef ==> exists k int :: 0 <= k && k < len(x.Typedefs) && x.Typedefs[k].Alias == n) }
+//@ pure func wfThs() bool { return forall x *parser.Thrift :: x != nil ==> wfTh1(x) }
+
+//@ func getEnum(ast *parser.Thrift, name string) (enum *parser.Enum, includeIndex int32)
+//@   requires ast != nil && wfThs()
+//@   ensures enum == nil ==> includeIndex == -1
+//@   ensures includeIndex == -1 || (0 <= includeIndex && includeIndex < len(ast.Includes))
+//@   ensures !inDom(ast.Name2Category, name) ==> enum == nil
+//@   ensures inDom(ast.Name2Category, name) && ast.Name2Category[name] == parser.Category_Enum ==> enum != nil && enum.Name == name && includeIndex == -1
